@@ -85,8 +85,12 @@ func progressMode(r *common.Run, sk *sink) {
 	}
 	// directed prefix (replay.go): the transfer of a snapshot image to a lagging follower is disturbed by
 	// an in-process restart of the receiving replica or by a cut of its link; the follower must catch up
-	for _, c := range r.MyCases(r.Pick(4, 32)) {
-		runRestartDuringSend(r, sk, c, 1+c%2, r.Rand("rds", c), r.SubSeed("rds-seed", c))
+	for _, c := range r.MyCases(r.Pick(8, 48)) {
+		mode := 2
+		if c%4 == 0 {
+			mode = 1
+		}
+		runRestartDuringSend(r, sk, c, mode, r.Rand("rds", c), r.SubSeed("rds-seed", c))
 		r.Flush()
 	}
 	// directed prefix: two followers of an on-disk shard need a streamed snapshot at the same time
